@@ -17,7 +17,7 @@ def main(prop, level, rule, tier, replay, want_crashes):
             mtindep.replay(run, rcase, collections.Counter())
             return run.finish(10, 1, rule)
         return fvrun.replay(run, replay, prop)
-    tags = ["gasan"] if tier == "quick" else ["gasan", "casan"]
+    tags = ["gasan", "casan"]     # the second compiler runs every 4th job (unspecified evaluation order etc.)
     T = fvrun.run_all(tier, run.seed, tags)
     if not T.lvalue_ok:
         if prop == "C07":
